@@ -33,6 +33,8 @@ type vaCase struct {
 	Sig   string `json:"sig"`
 	Vmsg  string `json:"vmsg"`
 	Vkeys vaIdx  `json:"vkeys"`
+	Ri    int    `json:"ri"`
+	Rc    int    `json:"rc"`
 }
 
 type vaCases struct {
@@ -162,6 +164,38 @@ func vaRun(raw json.RawMessage, layout string, wide int, r *rand.Rand, pool []va
 			publics[pos[n-1]] = &rogue
 		}
 		sig = attacker.priv.Sign(msg)
+	} else if c.Sig == "RogueC" {
+		// coefficient-folded key cancellation: selected key ri := X - sum of the other selected keys;
+		// signature := ordinary signature under coef(rc) * x, coef computed as the verifier does
+		X, err := edwards25519.NewIdentityPoint().SetBytes(attacker.pub[:])
+		if err != nil {
+			panic(err)
+		}
+		at := 0
+		for k, i := range c.Ss {
+			if i == c.Rc {
+				at = k
+			}
+			if i == c.Ri {
+				continue
+			}
+			A, err := edwards25519.NewIdentityPoint().SetBytes(publics[pos[i]][:])
+			if err != nil {
+				panic(err)
+			}
+			X = edwards25519.NewIdentityPoint().Subtract(X, A)
+		}
+		var rogue Key
+		copy(rogue[:], X.Bytes())
+		publics[pos[c.Ri]] = &rogue
+		sig = attacker.priv.Sign(msg)
+		_, coeffs, _, err := aggregateWeightedPublicKey(publics, real(c.Ss))
+		x, e2 := edwards25519.NewScalar().SetCanonicalBytes(attacker.priv[:])
+		if err == nil && e2 == nil && at < len(coeffs) {
+			var k Key
+			copy(k[:], edwards25519.NewScalar().Multiply(coeffs[at], x).Bytes())
+			sig = k.Sign(msg)
+		}
 	} else if c.Sig == "Plain" {
 		sum := edwards25519.NewScalar()
 		for _, i := range c.Ss {
@@ -216,6 +250,18 @@ func vaRun(raw json.RawMessage, layout string, wide int, r *rand.Rand, pool []va
 		}
 	}
 	ev["sign"] = signOK
+	// structural observation: the coefficients of the signing list over the final key vector
+	cdist := true
+	if _, coeffs, _, err := aggregateWeightedPublicKey(publics, real(c.Ss)); err == nil {
+		for a := range coeffs {
+			for b := a + 1; b < len(coeffs); b++ {
+				if coeffs[a].Equal(coeffs[b]) == 1 {
+					cdist = false
+				}
+			}
+		}
+	}
+	ev["cdist"] = cdist
 
 	// ---- verification arguments
 	vkeys := append([]*Key{}, publics...)
